@@ -21,7 +21,16 @@ def check_energy_step(ctx, sc):
     ctx.oracle_evals += K + 1
     sd = energy.scene_description(r)
     P, B = sd['P'], sd['tab'].shape[3]
-    rho = np.array([sd['tab'][sd['tidx'][sd['wall'][j]], 0, 0, :] for j in range(P)])     # (P,B)
+    # the reflectance that governs is the one the CALLER set for the receiving wall (scene
+    # description), whichever way the materials were installed
+    rho = np.array([1.0 - np.asarray(sc['absorption'][sd['wall'][j]], float) for j in range(P)])     # (P,B)
+    rho_obj = np.array([sd['tab'][sd['tidx'][sd['wall'][j]], 0, 0, :] for j in range(P)])
+    if not np.allclose(rho, rho_obj, rtol=1e-12, atol=1e-15):
+        j = int(np.argmax(np.abs(rho - rho_obj).max(axis=1)))
+        ctx.violation('material-in-force', 'wall %d was given absorption %s but the object applies reflectance %s to its patches (installation: %s)'
+                      % (sd['wall'][j], np.round(sc['absorption'][sd['wall'][j]], 4).tolist(), np.round(rho_obj[j], 4).tolist(), sc.get('install') or 'one call per wall'),
+                      energy.scene_input(sc), rho_obj[j], rho[j])
+        return
     Fp = np.zeros((P, P))
     dist = np.zeros((P, P))
     for i in range(P):
@@ -83,6 +92,9 @@ def run(ctx):
     for k in range(n_s):
         sc = energy.gen_scene(ctx.rng, small=True, kinds=[kinds[k % 3]], multi_dir=False,
                               att_zero=(k % 2 == 0))
+        if k % 3 == 1:
+            # non-uniform walls installed as "wall 0's material everywhere, then the others re-assigned"
+            sc['install'] = 'default-first'
         c03.stagewise(ctx, sc)
         check_energy_step(ctx, sc)
 
